@@ -1113,7 +1113,8 @@ def required_cells():
 # harness (real library on pseudo-random balanced digits) against Model/CkksData.lean, bit for bit
 LIN_KINDS = [("add", 8), ("sub", 8), ("add_assign", 6), ("sub_assign", 6), ("neg", 4), ("neg_assign", 2),
              ("mul_pow2", 4), ("mul_pow2_assign", 3), ("div_pow2", 4), ("div_pow2_assign", 2),
-             ("rescale", 6), ("rescale_assign", 4), ("align", 3)]
+             ("rescale", 6), ("rescale_assign", 4), ("align", 3),
+             ("add_pt_znx", 4), ("sub_pt_znx", 3), ("add_pt_znx_assign", 3), ("sub_pt_znx_assign", 3)]
 
 
 def data_programs(rng, count, max_steps):
@@ -1159,6 +1160,16 @@ def data_programs(rng, count, max_steps):
                     c = [name, d, a, bits]
                 elif name in ("mul_pow2_assign", "div_pow2_assign"):
                     c = [name, d, bits]
+                elif name in ("add_pt_znx", "sub_pt_znx", "add_pt_znx_assign", "sub_pt_znx_assign"):
+                    src = ca if name in ("add_pt_znx", "sub_pt_znx") else cd
+                    pd_ = rng.range(2, 40)
+                    # a plaintext that can be aligned: log_budget + pt.log_delta >= pt.max_k (mostly)
+                    base = (src.b + pd_) // q * q                    # largest max_k the ciphertext can be aligned with
+                    if base > q and rng.chance(1, 3):
+                        base -= q
+                    tot = max(1, base - rng.range(0, q - 1) + (q if rng.chance(1, 10) else 0))
+                    pb_ = max(0, min(tot, 5 * q) - pd_)
+                    c = ([name, d, a] if name in ("add_pt_znx", "sub_pt_znx") else [name, d]) + [pd_, pb_, q]
                 elif name == "rescale":
                     c = [name, d, rng.range(0, ca.b + (1 if rng.chance(1, 8) else 0)), a]
                 else:
@@ -1188,14 +1199,21 @@ def run_data(ctx, binp, drv, lines):
     for k, l in enumerate(lines):
         st = impl.get(k, ["?"])
         init = st[0][5:] if st and st[0].startswith("init#") else ""
-        mids.append(f"{k} ckks {l} data={init}")
+        # ZNX plaintext operands: the harness draws their limbs and prints them after `%`; hand them to the model
+        kvp = l.split(" ops=")
+        ops_ = kvp[1].split(";") if len(kvp) > 1 else []
+        for j, o in enumerate(ops_):
+            if "_pt_znx" in o.split(",")[0]:
+                got = st[j + 1] if j + 1 < len(st) else ""
+                ops_[j] = o + "," + (got.split("%")[1] if "%" in got else "-")
+        mids.append(f"{k} ckks {kvp[0]} data={init} ops=" + ";".join(ops_))
     rc1, mout, e1 = ctx.run_lines(drv, [], mids)
     model = {}
     for l in mout:
         t = l.split()
         if len(t) >= 2:
             model[int(t[0])] = t[1].split("|")
-    return [(model.get(k, ["?"]), impl.get(k, ["?"])[1:]) for k in range(len(lines))]
+    return [(model.get(k, ["?"]), [x.split("%")[0] for x in impl.get(k, ["?"])[1:]]) for k in range(len(lines))]
 
 
 def data_cell(q, prev, op, got):
@@ -1222,6 +1240,10 @@ def data_cell(q, prev, op, got):
         if name == "rescale":
             d, a = st[int(f[1])], st[int(f[3])]
             return (name, kind, "-", a[0] + a[1] - int(f[2]) > d[2] * q, a[2] > d[2])
+        if name in ("add_pt_znx", "sub_pt_znx"):
+            d, a = (st[int(x)] for x in f[1:3])
+            off = max(0, a[0] + a[1] - d[2] * q)
+            return (name, kind, "-", off > 0, a[2] > d[2])
         if name == "align":
             a, b = (st[int(x)] for x in f[1:3])
             return (name, kind, "a<b" if a[1] < b[1] else "a>=b", False, False)
@@ -1247,6 +1269,8 @@ def data_scenarios():
                 (f"2:{q//2}:{q//2}/3:{q//2}:{q+3}/3:{q//2}:{q//2}/3:{q//2}:3", "add_assign,0,1;sub_assign,0,2;add_assign,0,3;sub_assign,0,1;sub_assign,0,3;add_assign,0,2"),
                 # unary into a narrower destination, rescale paying the offset, division
                 (f"4:{q}:{2*q+5}/2:0:0/1:0:0", f"neg,1,0;mul_pow2,1,0,{q+3};div_pow2,1,0,7;rescale,1,{q+1},0;rescale,2,{q},0;neg,2,0;div_pow2,2,0,{2*q}"),
+                # plaintext addends: aligned (shift 0), shifted, narrower destination, alignment error
+                (f"3:{q//2}:{q+4}/2:0:0/3:0:0", f"add_pt_znx_assign,0,{q//2},{q+4},{q};sub_pt_znx_assign,0,{q//2},4,{q};add_pt_znx,1,0,{q//2},3,{q};sub_pt_znx,2,0,{q//3},{q},{q};add_pt_znx_assign,1,{q},{3*q},{q}"),
                 # align both ways, then add / sub on aligned operands
                 (f"3:{q//2}:{q+9}/3:{q//2}:{q}/3:0:0", "align,0,1;add,2,0,1;align,1,0;rescale_assign,1,4;align,0,1;sub,2,0,1"),
             ]
